@@ -60,29 +60,38 @@ func cachedGT(dir string) (*groundTruth, error) {
 
 func storeList(c *fw.Ctx) []storeCfg {
 	r := c.Rand("c09/stores")
-	mk := func(name string, emb bool, comp, ver, ioc, fsz, ntx int, full bool) storeCfg {
-		return storeCfg{Name: name, Embedded: emb, Compression: comp, HdrVersion: ver, IOConc: ioc, FileSize: fsz, NTx: ntx, Full: full, Seed: c.Seed}
+	mk := func(name string, emb bool, comp, ver, ioc, fsz, ntx, vcache, txcache int, full bool) storeCfg {
+		return storeCfg{Name: name, Embedded: emb, Compression: comp, HdrVersion: ver, IOConc: ioc, FileSize: fsz, NTx: ntx, VCache: vcache, TxCache: txcache, Full: full, Seed: c.Seed}
 	}
 	sizes := []int{384, 512, 640}
+	vc := []int{4, 16, 64}
 	if c.Quick() {
+		// value-log cache on in four of six (tx-log cache at the store's default there and tiny elsewhere)
 		return []storeCfg{
-			mk("plain-v1", false, appendable.NoCompression, 1, 2, sizes[r.IntN(3)], 4, true),
-			mk("embedded-v0", true, appendable.NoCompression, 0, 1, sizes[r.IntN(3)], 4, true),
-			mk("zlib-v1", false, appendable.ZLibCompression, 1, 1, sizes[r.IntN(3)], 3, false),
-			mk("lzw-v0", false, appendable.LZWCompression, 0, 2, sizes[r.IntN(3)], 3, false),
-			mk("flate-v1", false, appendable.FlateCompression, 1, 3, sizes[r.IntN(3)], 3, false),
-			mk("gzip-v0", false, appendable.GZipCompression, 0, 1, sizes[r.IntN(3)], 3, false),
+			mk("plain-v1", false, appendable.NoCompression, 1, 2, sizes[r.IntN(3)], 3, vc[r.IntN(3)], 0, true),
+			mk("embedded-v0", true, appendable.NoCompression, 0, 1, sizes[r.IntN(3)], 3, 0, 4, true),
+			mk("zlib-v1", false, appendable.ZLibCompression, 1, 1, sizes[r.IntN(3)], 3, vc[r.IntN(3)], 2, false),
+			mk("lzw-v0", false, appendable.LZWCompression, 0, 2, sizes[r.IntN(3)], 3, vc[r.IntN(3)], 0, false),
+			mk("flate-v1", false, appendable.FlateCompression, 1, 3, sizes[r.IntN(3)], 3, 0, 4, false),
+			mk("gzip-v0", false, appendable.GZipCompression, 0, 1, sizes[r.IntN(3)], 3, vc[r.IntN(3)], 0, false),
 		}
 	}
 	var out []storeCfg
 	for ver := 0; ver <= 1; ver++ {
+		// header v0 stores: value cache on, default tx cache; v1: alternate
+		vcOf := func(k int) int {
+			if (k+ver)%2 == 0 {
+				return vc[r.IntN(3)]
+			}
+			return 0
+		}
 		out = append(out,
-			mk(fmt.Sprintf("plain-v%d", ver), false, appendable.NoCompression, ver, 1+ver, sizes[r.IntN(3)], 6, true),
-			mk(fmt.Sprintf("embedded-v%d", ver), true, appendable.NoCompression, ver, 1, sizes[r.IntN(3)], 6, true),
-			mk(fmt.Sprintf("flate-v%d", ver), false, appendable.FlateCompression, ver, 2-ver, sizes[r.IntN(3)], 6, true),
-			mk(fmt.Sprintf("gzip-v%d", ver), false, appendable.GZipCompression, ver, 1+2*ver, sizes[r.IntN(3)], 6, true),
-			mk(fmt.Sprintf("lzw-v%d", ver), false, appendable.LZWCompression, ver, 3-2*ver, sizes[r.IntN(3)], 6, true),
-			mk(fmt.Sprintf("zlib-v%d", ver), false, appendable.ZLibCompression, ver, 1+ver, sizes[r.IntN(3)], 6, true),
+			mk(fmt.Sprintf("plain-v%d", ver), false, appendable.NoCompression, ver, 1+ver, sizes[r.IntN(3)], 6, vcOf(0), 4*ver, true),
+			mk(fmt.Sprintf("embedded-v%d", ver), true, appendable.NoCompression, ver, 1, sizes[r.IntN(3)], 6, vcOf(1), 4-4*ver, true),
+			mk(fmt.Sprintf("flate-v%d", ver), false, appendable.FlateCompression, ver, 2-ver, sizes[r.IntN(3)], 6, vcOf(2), 4*ver, true),
+			mk(fmt.Sprintf("gzip-v%d", ver), false, appendable.GZipCompression, ver, 1+2*ver, sizes[r.IntN(3)], 6, vcOf(3), 2-2*ver, true),
+			mk(fmt.Sprintf("lzw-v%d", ver), false, appendable.LZWCompression, ver, 3-2*ver, sizes[r.IntN(3)], 6, vcOf(4), 4*ver, true),
+			mk(fmt.Sprintf("zlib-v%d", ver), false, appendable.ZLibCompression, ver, 1+ver, sizes[r.IntN(3)], 6, vcOf(5), 0, true),
 		)
 	}
 	return out
@@ -125,6 +134,9 @@ func (rn *runner) handle(cases []caseT, final bool) func(rs fw.CaseResult) {
 		cs := cases[rs.Index]
 		g := rn.gts[cs.S]
 		fmtKey := g.Cfg.format() + "|" + cs.Kind + ":" + cs.Field
+		if cs.Pre {
+			fmtKey += "|after-unchecked-export"
+		}
 		switch {
 		case rs.TimedOut:
 			// the in-child watchdog should have fired first: the process itself was stuck
@@ -244,7 +256,7 @@ func Run(c *fw.Ctx) {
 		replay(c)
 		return
 	}
-	c.Rule = "pristine stores (plain / flate / gzip / lzw / zlib value logs, embedded values, header v0/v1, tx and kv metadata, several chunks) closed cleanly; every byte of committed tx-log records and referenced value extents located from the commit log and the entries' (vOff,vLen); a case = some of those bytes altered on a copy (every single bit; PRNG 2-8 bits / byte / range; every numeric field to boundary and sibling values, every metadata byte; same-size splices of records, headers, entries, value references, value extents), index directory absent; in a child: Open, ReadTx, ReadValue, ReadTxHeader, ReadTxEntry, ExportTx, TxReader asc/desc from every start, LinearProof/DualProof for every pair, then Get/History of every key once the index is rebuilt; each call must return an error or exactly the committed content (panic, confirmed hang, different content = violation); distinct = (store format x mutation kind:field class x read path x outcome class) observed"
+	c.Rule = "pristine stores (plain / flate / gzip / lzw / zlib value logs, embedded values, header v0/v1, tx and kv metadata, several chunks) closed cleanly; every byte of committed tx-log records and referenced value extents located from the commit log and the entries' (vOff,vLen); a case = some of those bytes altered on a copy (every single bit; PRNG 2-8 bits / byte / range; every numeric field to boundary and sibling values, every metadata byte; same-size splices of records, headers, entries, value references, value extents), index directory absent; in a child: Open, ReadTx, ReadValue, ReadTxHeader, ReadTxEntry, ExportTx, TxReader asc/desc from every start, LinearProof/DualProof for every pair, then Get/History of every key once the index is rebuilt, every read made twice on the same open store (value-log cache on in most stores; some value cases start with an unchecked ExportTx of every tx, not judged); each call must return an error or exactly the committed content (panic, confirmed hang, different content = violation); distinct = (store format x mutation kind:field class x read path x outcome class) observed"
 	c.Assume("ground truth = what was passed to Commit and the acknowledged headers; exports, proofs and Get/History answers are those of a reopen of the pristine store (checked against the log)")
 	c.Assume("(vOff,vLen) of an entry are a locator, not content: they are judged where they are used (ReadValue, ExportTx, Resolve); ExportTx answering 'values unavailable' (digests + truncation flag) is a detection, not different content")
 	c.Assume("while the re-indexing reports an error the index may lag: Get/History must then return only genuine committed versions; once it reports all txs indexed the answers must equal the pristine ones")
@@ -278,8 +290,28 @@ func Run(c *fw.Ctx) {
 		m.trailerCombos(mr)
 		m.splices(mr, c.N(300, 3000))
 		m.multi(mr, c.N(250, 22000))
+		if cf.VCache > 0 {
+			// twins of value-extent cases that start with an unchecked export of every tx (what fills the value cache
+			// without validation); every second one in quick
+			step := c.N(2, 1)
+			nv := 0
+			for _, cs := range m.cases {
+				if strings.HasPrefix(cs.Field, "val") {
+					if nv++; nv%step == 0 {
+						tw := cs
+						tw.Pre = true
+						tw.Note += " (after an unchecked ExportTx of every tx)"
+						m.cases = append(m.cases, tw)
+					}
+				}
+			}
+		}
 		for _, cs := range m.cases {
-			perKind[cs.Kind]++
+			k := cs.Kind
+			if cs.Pre {
+				k += "+unchecked-export-first"
+			}
+			perKind[k]++
 		}
 		all = append(all, m.cases...)
 	}
